@@ -1035,3 +1035,178 @@ fn sdt_view(l: &Live) -> Option<(Vec<u8>, usize, bool)> {
         _ => None,
     }
 }
+
+/// Build the table of `p` with all (accepted) ops applied and lend it as `&dyn Aml`.
+/// Returns false if construction was refused.
+pub fn with_table(p: &Program, flat: &[Op], k: &mut dyn FnMut(&dyn Aml)) -> bool {
+    let Ok(mut live) = catch_unwind(AssertUnwindSafe(|| construct(p))) else { return false };
+    let mut hs = Vec::new();
+    for (i, op) in flat.iter().enumerate() {
+        let _ = catch_unwind(AssertUnwindSafe(|| live.apply(op, i, &mut hs)));
+    }
+    match &live {
+        Live::Xsdt(t) => k(t),
+        Live::Mcfg(t) => k(t),
+        Live::Madt(t) => k(t),
+        Live::Srat(t) => k(t),
+        Live::Slit(t) => k(t),
+        Live::Hmat(t) => k(t),
+        Live::Pptt(t, ..) => k(t),
+        Live::Rhct(t, ..) => k(t),
+        Live::Rimt(t, ..) => k(t),
+        Live::Viot(t, ..) => k(t),
+        Live::Cedt(t) => k(t),
+        Live::Hest(t) => k(t),
+        Live::Rqsc(t) => k(t),
+        Live::Tpm2(t) => k(t),
+        Live::TcpaClient(t) => k(t),
+        Live::TcpaServer(t) => k(t),
+        Live::Fadt(b) => k(&b.finalize()),
+        Live::Bert(t) => k(t),
+        Live::Spcr(t) => k(t),
+        Live::Sdt(t) => k(t),
+        Live::Rsdp(t) => k(t),
+        Live::Facs(t) => k(t),
+    }
+    true
+}
+
+/// The entry object an op would add, on its own, with its raw in-memory form
+/// where the type can be added to a table through `as_bytes()`. Ops whose entry
+/// needs handles from a table are lent without their references.
+pub fn with_entry(op: &Op, k: &mut dyn FnMut(&'static str, &dyn Aml, Option<&[u8]>)) {
+    use zerocopy::IntoBytes;
+    macro_rules! raw {
+        ($name:expr, $e:expr) => {{
+            let x = $e;
+            k($name, &x, Some(x.as_bytes()))
+        }};
+    }
+    macro_rules! plain {
+        ($name:expr, $e:expr) => {{
+            let x = $e;
+            k($name, &x, None)
+        }};
+    }
+    match op {
+        Op::Lapic(u, a, s) => raw!("madt::ProcessorLocalApic", madt::ProcessorLocalApic::new(*u, *a, mk_lapic_status(*s))),
+        Op::IoApic(i, a, g) => raw!("madt::IoApic", madt::IoApic::new(*i, *a, *g)),
+        Op::Gicc { status, sets } => raw!("madt::Gicc", mk_gicc(*status, sets)),
+        Op::Gicd(i, b, v) => raw!("madt::Gicd", madt::Gicd::new(*i, *b, mk_gicver(*v))),
+        Op::GicMsi { frame, base, spi } => raw!("madt::GicMsi", mk_gicmsi(frame, base, spi)),
+        Op::Gicr(b, l) => raw!("madt::Gicr", madt::Gicr::new(*b, *l)),
+        Op::Its(i, b) => raw!("madt::GicIts", madt::GicIts::new(*i, *b)),
+        Op::Rintc { status, hart, uid, ext, imsic_base, imsic_size } => raw!("madt::RINTC", madt::RINTC::new(mk_hart_status(*status), *hart, *uid, *ext, *imsic_base, *imsic_size)),
+        Op::Imsic { s, g, gib, hib, grib, gris, .. } => raw!("madt::IMSIC", madt::IMSIC::new(*s, *g, *gib, *hib, *grib, *gris)),
+        Op::Aplic { id, hw, idcs, gsi, addr, size, srcs } => raw!("madt::APLIC", madt::APLIC::new(*id, *hw, *idcs, *gsi, *addr, *size, *srcs)),
+        Op::Plic { id, hw, srcs, prio, size, addr, gsi } => raw!("madt::PLIC", madt::PLIC::new(*id, *hw, *srcs, *prio, *size, *addr, *gsi)),
+        Op::SratMem { pd, base, len, flags } => plain!("srat::MemoryAffinity", mk_srat_mem(*pd, *base, *len, flags)),
+        Op::SratGi { pd, acpi, pci, flags } => plain!("srat::GenericInitiator", mk_srat_gi(*pd, acpi, pci, flags)),
+        Op::SratRintc { uid, clock, pd, enabled } => raw!("srat::RintcAffinity", mk_srat_rintc(*uid, *clock, pd, *enabled)),
+        Op::HmatProx(a, b) => raw!("hmat::MemoryProximityDomain", hmat::MemoryProximityDomain::new(*a, *b)),
+        Op::HmatSllbi { loc, dt, mts, unit, ni, nt, ops } => plain!("hmat::SystemLocality", mk_sllbi(*loc, *dt, *mts, *unit, *ni, *nt, ops)),
+        Op::HmatCache { pd, size, total, level, assoc, policy, line, handles } => plain!("hmat::MemorySideCache", mk_side_cache(*pd, *size, *total, *level, *assoc, *policy, *line, handles)),
+        Op::PpttCache { sets } => {
+            let s: Vec<CacheSet> = sets.iter().filter(|s| !matches!(s, CacheSet::Next(_))).cloned().collect();
+            raw!("pptt::CacheNode", mk_cache_node(&s, &[]))
+        }
+        Op::PpttProc { id, flags, raw_flags, .. } => plain!("pptt::ProcessorNode", mk_proc_node(&None, *id, flags, &[], raw_flags, &[], &[])),
+        Op::RhctIsa(n) => plain!("rhct::IsaStringNode", rhct::IsaStringNode::new(static_text(*n as usize))),
+        Op::RhctMmu(s) => plain!(
+            "rhct::MmuNode",
+            rhct::MmuNode::new(match s {
+                0 => rhct::VirtualAddressScheme::Sv39,
+                1 => rhct::VirtualAddressScheme::Sv48,
+                _ => rhct::VirtualAddressScheme::Sv57,
+            })
+        ),
+        Op::RhctCmo(a, b, c) => plain!("rhct::CmoNode", rhct::CmoNode::new(*a, *b, *c)),
+        Op::RimtIommu { id, base, pci, prox, wires } => {
+            let w = wires.as_ref().map(|v| v.iter().map(|(n, l, p, a)| rimt::InterruptWire::new(*n, *l, *p, *a)).collect());
+            plain!("rimt::Iommu", rimt::Iommu::new(*id, *base, pci.map(|b| rimt::PciDevice::new(b.seg, b.bus, b.dev, b.func)), *prox, w))
+        }
+        Op::RimtRc { id, seg, ats, pri, .. } => plain!("rimt::PcieRootComplex", rimt::PcieRootComplex::new(*id, *seg, *ats, *pri, None)),
+        Op::RimtPlat { id, name_len, .. } => plain!("rimt::Platform", rimt::Platform::new(*id, text_of(*name_len as usize), None)),
+        Op::ViotPciIommu(b) => plain!("viot::VirtIoPciIommu", viot::VirtIoPciIommu::new(viot::PciDevice::new(b.seg, b.bus, b.dev, b.func))),
+        Op::ViotMmioIommu(b) => plain!("viot::VirtIoMmioIommu", viot::VirtIoMmioIommu::new(*b)),
+        Op::Chbs(u, v, b) => plain!("cedt::CxlHostBridge", cedt::CxlHostBridge::new(*u, if *v == 0 { cedt::CxlVersion::Cxl1_1 } else { cedt::CxlVersion::Cxl2 }, *b)),
+        Op::Cfmws { base, size, arith, gran, ways, qtg, restr, targets } => {
+            if targets.len() as u32 == super::gen::WAYS_COUNT[*ways as usize] {
+                plain!("cedt::CxlFixedMemory", mk_cfmws(*base, *size, *arith, *gran, *ways, *qtg, restr, targets))
+            }
+        }
+        Op::Cxims { gran, maps } => {
+            let mut x = cedt::XorInterleaveMath::new(mk_gran(*gran));
+            for m in maps {
+                x.add_xormap(*m);
+            }
+            plain!("cedt::XorInterleaveMath", x)
+        }
+        Op::Rdpas { bdf, proto, base } => plain!(
+            "cedt::PortAssociation",
+            cedt::PortAssociation::new(bdf.seg, bdf.bus, bdf.dev, bdf.func, if *proto == 0 { cedt::ProtocolType::CxlIo } else { cedt::ProtocolType::CxlMem }, *base)
+        ),
+        Op::AerRoot { dev, sets } => raw!("hest::PcieAerRootPort", mk_aer_root(dev, sets)),
+        Op::AerDev { dev, sets } => raw!("hest::PcieAerDevice", mk_aer_dev(dev, sets)),
+        Op::AerBridge { dev, sets } => raw!("hest::PcieAerBridge", mk_aer_bridge(dev, sets)),
+        Op::Ghes { v2, id, enabled, sets } => {
+            if *v2 {
+                raw!("hest::GenericHardwareSourceV2", mk_ghes2(*id, *enabled, sets))
+            } else {
+                raw!("hest::GenericHardwareSource", mk_ghes(*id, *enabled, sets))
+            }
+            for s in sets {
+                match s {
+                    GhesSet::Notification(n) => raw!("hest::NotificationStructure", mk_notif(n)),
+                    GhesSet::StatusAddr(g) | GhesSet::AckReg(g) => raw!("gas::GAS", mk_gas(g)),
+                    _ => {}
+                }
+            }
+        }
+        Op::RqscCtl { ty, reg, rcid, mcid, flags, res } => {
+            plain!("rqsc::QoSController", mk_rqsc_ctl(*ty, reg, *rcid, *mcid, *flags, res));
+            raw!("gas::GAS", mk_gas(reg));
+            for r in res {
+                match &r.id {
+                    RqscId::Cache(v) => raw!("rqsc::CacheResource", rqsc::CacheResource::new(*v)),
+                    RqscId::Mem(a, b) => raw!("rqsc::MemoryAffinityStructureResource", rqsc::MemoryAffinityStructureResource::new(*a, *b)),
+                    RqscId::Acpi(a, b) => raw!("rqsc::ACPIDeviceResource", rqsc::ACPIDeviceResource::new(*a, *b)),
+                    RqscId::Pci(a) => raw!("rqsc::PCIDeviceResource", rqsc::PCIDeviceResource::new(*a)),
+                    _ => {}
+                }
+            }
+        }
+        Op::Repeat(o, _) => with_entry(o, k),
+        _ => {}
+    }
+}
+
+/// whole tables that are themselves plain in-memory structures
+pub fn with_raw_table(p: &Program, k: &mut dyn FnMut(&'static str, &dyn Aml, &[u8])) {
+    use zerocopy::IntoBytes;
+    let h = &p.hdr;
+    match (&p.kind, &p.ctor) {
+        (Kind::Bert, Ctor::Bert { len, base }) => {
+            let t = acpi_tables::bert::BERT::new(h.oem_id, h.oem_table_id, h.oem_rev, *len, *base);
+            k("bert::BERT", &t, t.as_bytes())
+        }
+        (Kind::Rsdp, Ctor::Rsdp { xsdt }) => {
+            let t = rsdp::Rsdp::new(h.oem_id, *xsdt);
+            k("rsdp::Rsdp", &t, t.as_bytes())
+        }
+        (Kind::Facs, _) => {
+            let t = facs::FACS::new();
+            k("facs::FACS", &t, t.as_bytes())
+        }
+        (Kind::TcpaServer, _) => {
+            let mut t = tpm2::TpmServer1_2::new(h.oem_id, h.oem_table_id, h.oem_rev);
+            for o in &p.ops {
+                if let Op::Tcpa(s) = o {
+                    t = apply_tcpa(t, s);
+                }
+            }
+            k("tpm2::TpmServer1_2", &t, t.as_bytes())
+        }
+        _ => {}
+    }
+}
